@@ -478,7 +478,7 @@ impl Prop for C11 {
         let static_late = with_static && cfg.chance(1, 4);
         let cross_rules = if cfg.chance(1, 3) { 1 + cfg.below(2) as u8 } else { 0 };
         let policy = match cfg.below(4) { 0 => Policy::Wait, 1 => Policy::Steal, k => Policy::Timeout { ms: 10 + r.below(100), steal: k == 2 } };
-        let ne = 6 + r.usize(20);
+        let ne = if cfg.chance(1, 2) { 6 + r.usize(20) } else { 14 + r.usize(30) };
         let events = (0..ne).map(|_| { let w = r.usize(n); Ev { gap: r.usize(3), stream: w, s: node(&mut r), p: pred(&mut r, w), o: node(&mut r), advance_ms: if r.chance(1, 4) { r.below(150) } else { 0 } } }).collect();
         let ns = if tier == Tier::Quick { 3 } else { 8 };
         MultiCase { hash_seed: Rng::sub(seed, "hash").next(), wins, static_block, static_data, policy, start: r.usize(3), events, schedules: (0..ns).map(|i| (sr.next(), i % 2 == 1)).collect(), shared_vocab, cross_rules, static_after: if static_late { 1 + r.usize(ne) } else { 0 }, stream_naming: if cfg.chance(1, 2) { 0 } else { 1 + cfg.below(3) as u8 } }
